@@ -107,7 +107,14 @@ func longPayload(r *vh.Rng, fam, format string, k int) reflect.Value {
 		if format == "cbor" {
 			return reflect.ValueOf(codec.RawExt{Tag: uint64(100 + k%3), Value: []interface{}{int64(k), "x"}})
 		}
-		return reflect.ValueOf(codec.RawExt{Tag: uint64(5 + k%3), Data: r.Bytes(r.PickInt(1, 2, 4, 8, 16, 17, 300))})
+		// k == 0: a ZERO-length payload (descriptor + tag only)
+		n := r.PickInt(1, 2, 4, 8, 16, 17, 300)
+		if k%2 == 0 {
+			n = 0
+		}
+		data := make([]byte, n)
+		copy(data, r.Bytes(n))
+		return reflect.ValueOf(codec.RawExt{Tag: uint64(5 + k%3), Data: data})
 	case "time":
 		return reflect.ValueOf([]time.Time{time.Unix(int64(1700000000+k), int64(r.Intn(1000))*1000000).UTC(), time.Unix(int64(k), 0).UTC()})
 	}
@@ -192,7 +199,10 @@ func runLong(r *vh.Rng, lr longRun, sum *vh.Summary) {
 	}
 	// ---- decode: one Decoder ----
 	var d *codec.Decoder
-	if lr.io {
+	if lr.io && r.Bool() {
+		// small chunks per Read (1..7 bytes), mostly unbuffered: the recording of a Raw spans many reads
+		d = codec.NewDecoder(&vh.ShortReader{R: bytes.NewReader(out), N: r.PickInt(1, 3, 7)}, vh.NewHandle(lr.format, vh.CopyOpts(o, "ReaderBufferSize", r.PickInt(0, 0, 16))))
+	} else if lr.io {
 		d = codec.NewDecoder(vh.OnlyReader{R: bytes.NewReader(out)}, vh.NewHandle(lr.format, vh.CopyOpts(o, "ReaderBufferSize", r.PickInt(0, 64, 4096))))
 	} else {
 		d = codec.NewDecoderBytes(out, h)
@@ -311,7 +321,7 @@ func longStream(r *vh.Rng, rounds, deep int, sum *vh.Summary) {
 				for _, mode := range longModes {
 					md := 16 + r.Intn(49)
 					lr := longRun{format: f, fam: fam, mode: mode, maxDepth: md, n: 3*md + 10 + r.Intn(40),
-						toArray: r.Chance(1, 3), sym: f == "binc" && r.Bool(), io: r.Chance(1, 3)}
+						toArray: r.Chance(1, 3), sym: f == "binc" && r.Bool(), io: r.Chance(1, 2)}
 					runLong(r, lr, sum)
 				}
 			}
@@ -327,7 +337,7 @@ func longStream(r *vh.Rng, rounds, deep int, sum *vh.Summary) {
 				fam = "arr16"
 			}
 			lr := longRun{format: f, fam: fam, mode: longModes[k%len(longModes)], maxDepth: 0, n: 1100 + r.Intn(1401),
-				toArray: r.Chance(1, 3), sym: f == "binc" && r.Bool(), io: r.Chance(1, 3)}
+				toArray: r.Chance(1, 3), sym: f == "binc" && r.Bool(), io: r.Chance(1, 2)}
 			runLong(r, lr, sum)
 		}
 	}
